@@ -85,7 +85,13 @@ def make_arch(arch):
     a = LayeredArchitecture()
     for name, kind, payload in arch:
         a = a.layer(name)
-        a = a.containing_modules(list(payload)) if kind == "N" else a.have_modules_with_names_matching(payload)
+        if kind == "N":
+            # a single module is passed as a plain string for every second layer (documented as equivalent to a one-element
+            # list); the choice depends on the layer name only, so that it is the same under renamings of the modules
+            as_string = len(payload) == 1 and (len(name) + sum(map(ord, name))) % 2 == 0
+            a = a.containing_modules(payload[0] if as_string else list(payload))
+        else:
+            a = a.have_modules_with_names_matching(payload)
     return a
 
 
